@@ -84,6 +84,10 @@ class sampler:
             prop_data["e_estimate"],
             energy_samples,
         )
+        # dead walkers do not contribute; their local energy may be undefined (nan * 0 = nan)
+        energy_samples = jnp.where(
+            prop_data["weights"] > 0.0, energy_samples, prop_data["e_estimate"]
+        )
         block_weight = jnp.sum(prop_data["weights"])
         block_energy = jnp.sum(energy_samples * prop_data["weights"]) / block_weight
         prop_data["pop_control_ene_shift"] = (
